@@ -125,6 +125,14 @@ def show(t):
         return f"conj({show(t[1])})"
     if k == "opaque":
         return f"?{t[1]}?"
+    if k == "chol":
+        return f"chol({show(t[1])})"
+    if k == "plu":
+        return f"plu({show(t[1])})[{t[2]}]"
+    if k in ("diag", "perm", "argsort", "recip", "pinv"):
+        return f"{k}({show(t[1])})"
+    if k == "mismatch":
+        return f"!{t[1]}!"
     if k == "join":
         return " | ".join(show(x) for x in t[1])
     if k == "tuple":
@@ -199,8 +207,10 @@ def snorm(s, hyp):
 # ------------------------------------------------------------------ matrix normaliser
 def norm(t, hyp=frozenset()):
     k = t[0]
-    if k in ("sym", "I", "var", "opaque", "perm", "mismatch"):
+    if k in ("sym", "I", "var", "opaque", "mismatch", "chol", "plu", "argsort", "recip", "pinv", "iter", "factor", "elt"):
         return t
+    if k == "perm":
+        return ("perm", norm_vec(t[1]))
     if k == "join":
         return ("join", frozenset(norm(x, hyp) for x in t[1]))
     if k == "tuple":
@@ -322,6 +332,16 @@ def norm(t, hyp=frozenset()):
             return (k, x)
         if kx == "I":
             return I
+        if kx == "perm" and k in ("inv", "T"):
+            return ("perm", norm_vec(("argsort", x[1])))  # P^-1 = P^T = permutation by argsort
+        if kx == "perm" and k == "C":
+            return x
+        if kx == "diag" and k == "inv":
+            return ("diag", norm_vec(("recip", x[1])))
+        if kx == "diag" and k == "T":
+            return x
+        if kx == "kron" and k == "inv":
+            return norm(("kron", tuple(("inv", y) for y in x[1])), hyp)
         if kx == "fn" and k in ("T", "C") and x[1].startswith("real:"):
             # a function with a real power series commutes with transposition / conjugation
             return norm(("fn", x[1], (k, x[2])), hyp)
@@ -362,7 +382,17 @@ def expand(t, defs):
         return t
     if t[0] == "sym" and t in defs:
         return defs[t]
+    if t[0] in ("chol", "plu"):
+        return t  # factor symbols are atoms: chol(A) stays chol(A) when A := chol(A)·H(chol(A))
     return tuple(expand(x, defs) if isinstance(x, tuple) else x for x in t)
+
+
+def norm_vec(v):
+    if isinstance(v, tuple) and v and v[0] == "argsort" and isinstance(v[1], tuple) and v[1] and v[1][0] == "argsort":
+        return norm_vec(v[1][1]) if False else v  # argsort(argsort(p)) = p only for permutations; kept as is
+    if isinstance(v, tuple) and v and v[0] == "recip" and isinstance(v[1], tuple) and v[1] and v[1][0] == "recip":
+        return norm_vec(v[1][1])
+    return v
 
 
 def contains_var(t):
@@ -522,6 +552,8 @@ class TermEval(AbsInt):
             return ("opaque", "elementwise product")
         if isinstance(op, ast.Div):
             ls, rs = self.as_scalar(left), self.as_scalar(right)
+            if left[0] == "num" and left[1] in (1, 1.0) and rs is None and right[0] == "sym":
+                return ("recip", right)
             if ls is not None and rs is not None:
                 return ("sc", ("smul", (ls, ("sinv", rs))))
             if rs is not None:
